@@ -20,7 +20,7 @@ FLAVORS = {
                  flags="-O1 -g -fno-omit-frame-pointer -fsanitize=thread -D%s" % GUARD),
     "plain": dict(cxx="g++", cc="gcc", flags="-O2 -g -D%s" % GUARD),
     # not a check flavor: `VERIF_COVERAGE=1 ./check ...` (see bin/coverage) maps asan/tsan/plain to it to find what the workloads never reach
-    "cov": dict(cxx="g++", cc="gcc", flags="-O0 -g --coverage -fprofile-update=atomic -D%s" % GUARD),
+    "cov": dict(cxx="g++", cc="gcc", flags="-O0 -g --coverage -fprofile-update=atomic -DVERIF_COVERAGE_BUILD -D%s" % GUARD),
     "fuzz": dict(cxx="clang++-14", cc="clang-14",
                  flags="-O1 -g -fno-omit-frame-pointer -fsanitize=fuzzer-no-link,address,undefined -fno-sanitize=nonnull-attribute "
                        "-fno-sanitize-recover=all -fno-sanitize=object-size -D%s" % GUARD,
